@@ -7,7 +7,9 @@ NOT_PROVED = {
          "real kernel write atomicity/ordering is assumed as the property states (program-order effects, byte-prefix writes)"],
  "C03": ["process-crash model: nothing essential - C03_process_crash / C03_persisted_survives are proved end to end under every policy; premises: global invariant at the persist point, hist_wf, stream and CB bounds (everything fits below 2^64 files), no_zero_collision (the 'up to a CRC collision' proviso, satisfiable: torn_hyps_sat)",
          "power-loss model: proved at the event-trace level only (every write followed by a sync of its file survives: power_filter_all_synced_app; FlushAndFsync leaves everything synced: step_fsync_durable; unlink only after sync); what open makes of a power-loss image is decided by the correspondence and the persist-point oracle; metadata (create / set_len / unlink) is taken as immediately durable, the worst case for unlink-before-sync; reordering of unsynced metadata by a real file system is outside the model"],
- "C04": ["crash half: follows from C02_crash_atomic (recovered abstract state = before or after the in-flight call, so next positions are those of a specification state) - not restated as a separate corollary; see the caveat on C02's hypothesis; the restart half is proved (RestartCorollaries.v)"],
+ "C04": [
+   "nothing essential: live, across clean restarts (RestartCorollaries.v) and after recovery from any crash image under any policy (CrashCorollaries.crash_next_positions, crash_next_after_persist) next positions are those of a specification state at least as recent as the persist point; power-loss recovery is covered by the oracle only"
+  ],
  "C05": [],
  "C06": ["the attribution file of a record is the writer's file when its append BEGAN; an append beginning exactly at a file end is attributed to the full file (known finding F5): the theorems are stated with attribution files, the oracle with first-write files",
          "wr_ok (contiguous tracker) is proved preserved by every call and established for fresh directories (Inv); directories opened with numbering gaps are outside"],
@@ -18,11 +20,15 @@ NOT_PROVED = {
  "C10": ["panic freedom: the model is total (slices and indexing default), so 'never panics' is not a model theorem; it is checked on the real crate under catch_unwind on every generated image; proved: termination on every directory and well-formedness of the returned state",
          "allocation bound is not stated as a theorem"],
  "C11": [],
- "C12": ["proved through files: crash (TornFile.open_torn) and CRC-detected damage (DamageFile.open_damaged) deliver an entry whole or not at all, and replay applies all records of an entry or fails; header-field damage (length, type byte) is covered by the oracle only (and is where known finding F4 lives)"],
+ "C12": [
+   "proved end to end for crashes (batch_crash, any policy) and for CRC-detected damage (batch_damage_self / batch_damage_other); header-field damage (length, type byte) is covered by the oracle only (and is where known finding F4 lives); power-loss images: oracle only"
+  ],
  "C13": [],
  "C14": ["L_GC P = false (the current code: GC always persists before unlinking) is a premise of the step/run theorems"],
  "C15": [],
  "C16": ["memory_used_bytes <= memory_allocated_bytes is a statement about std's allocator-backed capacities (String, Vec, VecDeque): checked at run time after every call, not proved"],
  "C17": ["names of the form wal-<20 digits> whose value exceeds u64::MAX are covered under the premise that file numbers stay below 2^64 (step_unparsed_untouched); symlink / file_type semantics are OS behaviour modelled as an entry kind"],
- "C18": ["crash half: follows from C02_crash_atomic + the specification-level projection - not restated as a separate corollary; proved: projection for every history with clean restarts anywhere"],
+ "C18": [
+   "nothing essential: projection is proved live, across clean restarts and after recovery from any crash image under any policy (CrashCorollaries.crash_projection); power-loss recovery is covered by the oracle only"
+  ],
 }
